@@ -27,6 +27,16 @@ def counter_frames(rng, net, mtu):
         b = bytearray(fr)
         struct.pack_into(">H", b, 32, cnt)
         out.append(bytes(b)[:mtu])
+    # one more than fits, carried by a full-MTU frame whose last (overhanging) record looks valid: the
+    # record that straddles the end of the buffer is then really interpreted, not skipped as junk
+    full, _ = G.f_emit(rng, net, m, n=fits_e, kinds=(0, 1))
+    tail = bytes([rng.randint(0, 1), 0]) + rng.choice(net.strangers) + net.own
+    b = bytearray((full + tail * 2)[:mtu])
+    struct.pack_into(">H", b, 32, fits_e + 1)
+    out.append(bytes(b))
+    b2 = bytearray(b)
+    struct.pack_into(">H", b2, 32, fits_e + 2)
+    out.append(bytes(b2))
     for cnt in (0, 1, fits_s, fits_s + 1, 0xFFFF):
         carried = min(fits_s, cnt) if rng.random() < 0.7 else rng.randint(0, fits_s)
         sts = [rng.choice(net.strangers + [net.own]) for _ in range(carried)]
